@@ -72,6 +72,11 @@ def gen_core(rng, knobs=None):
                 pol['auto_request'] = rng.choice([1, 2])
             if rng.random() < k.get('p_in_subscribe', 0.15):
                 pol['in_subscribe'] = rng.choice([['request', 1], ['request', 3], ['request', 2147483647], ['cancel']])
+            if rng.random() < k.get('p_cancel_in_next', 0.1):
+                pol['cancel_in_next'] = rng.choice([1, 2, 3])
+            if pol['src'] == 'scripted' and rng.random() < k.get('p_sync', 0.3):
+                pol['sync'] = items(rng, rng.choice([0, 1, 2, 3, 5]))
+                pol['complete_on_last'] = rng.random() < 0.5
             if rng.random() < k.get('p_collector', 0.2):
                 # the library's own batching subscriber (AwaitableRSocket.request_stream(limit_rate))
                 pol['collector'] = {'limit_rate': rng.choice([1, 1, 2, 2, 3, 5]), 'limit_count': rng.choice([None, None, None, 2, 3])}
@@ -90,6 +95,14 @@ def gen_core(rng, knobs=None):
                 pol['in_subscribe'] = rng.choice([['request', 1], ['request', 3], ['cancel']])
             if rng.random() < k.get('p_in_subscribe', 0.15):
                 pol['resp_in_subscribe'] = rng.choice([['request', 1], ['request', 3], ['cancel']])
+            if rng.random() < k.get('p_cancel_in_next', 0.1):
+                pol['cancel_in_next'] = rng.choice([1, 2, 3])
+            if pol['src'] == 'scripted' and pol['pub'] and rng.random() < k.get('p_sync', 0.3):
+                pol['sync'] = items(rng, rng.choice([0, 1, 2, 3, 5]))
+                pol['complete_on_last'] = rng.random() < 0.5
+            if ppol is not None and ppol['src'] == 'scripted' and rng.random() < k.get('p_sync', 0.3):
+                ppol['sync'] = items(rng, rng.choice([0, 1, 2, 3]))
+                ppol['complete_on_last'] = rng.random() < 0.5
             if rng.random() < k.get('p_collector', 0.2):
                 pol['collector'] = {'limit_rate': rng.choice([1, 1, 2, 2, 3, 5]), 'limit_count': rng.choice([None, None, None, 2, 3])}
             n0 = rng.choice([1, 2, 3, 5, 2147483647, None])
